@@ -9,7 +9,7 @@ CLAIMS = {
         "sample dimension of that same (augmented) matrix; V is VT conjugate-transposed in both SVD wrappers, reconstruction "
         "contracts with conj(components) and projection with plain components (EOF, SparsePCA, ExtendedEOF); the ascending svds "
         "branch re-sorts U, s, VT by one descending argsort and every truncation keeps a prefix; scores=U*s, norms=s, components=V; "
-        "Hilbert and Extended variants reach the same routine. ExtendedEOF's inner EOF centres the embedded matrix and applies neither standardisation nor latitude weights again; the exponential padding added before the Hilbert transform is cut off again under the same condition, keeping [n, 2n).",
+        "Hilbert and Extended variants reach the same routine. ExtendedEOF's inner EOF centres the embedded matrix and applies neither standardisation nor latitude weights again; the exponential padding added before the Hilbert transform is cut off again under the same condition, keeping [n, 2n). No accessor rescales the stored components / scores in place.",
         "note": "Necessary structural clauses only. Not decided: orthonormality, eigenvalue equality with an independent solver, "
         "Eckart-Young optimality, accuracy of the randomised path, Hilbert transform arithmetic. Trusted: np.linalg.svd descending / "
         "svds ascending order, default ddof=0.",
@@ -21,7 +21,7 @@ CLAIMS = {
         "stage the inverse reads what the forward wrote for the same role: Stacker stack/unstack and rename pairs on sample_name/feature_name with "
         "dims_mapping, Dataset variable-level name, dispatch on the stored type name, dimension order restored on every unstack path; Concatenator "
         "splits with the offsets it concatenated with and re-attaches the recorded coordinates; MultiIndexConverter records/restores exactly the "
-        "converted dimensions with the right reference per inverse; DimensionRenamer inverts its own mapping. List items reach xr.concat with their own sample labels and are joined by label (no override join, raw-array concatenation or sample relabelling); the two MultiIndex coordinate stores are distinct objects; the MultiIndex inverse re-attaches the labels and rebuilds the index.",
+        "converted dimensions with the right reference per inverse; DimensionRenamer inverts its own mapping. List items reach xr.concat with their own sample labels and are joined by label (no override join, raw-array concatenation or sample relabelling); the two MultiIndex coordinate stores are distinct objects; the MultiIndex inverse re-attaches the labels and rebuilds the index. The level names recorded for a serialised MultiIndex coordinate are the index's own names.",
         "note": "Necessary structural clauses only. Not decided: value-at-label equality, xarray's stack/unstack behaviour for exotic indexes, sortedness "
         "after unstack. Label paths for unseen data are decided under C05, NaN re-insertion under C06.",
         "technique": "call-sequence extraction against a table literal, writer/reader agreement by provenance, match-dispatch comparison",
@@ -31,7 +31,7 @@ CLAIMS = {
         "by the inverted operator under the same flag, once, with the mean removed first and restored last; every def-use path of data through "
         "the stage objects of the single- and cross-set families respects preprocessor -> pca -> whitener forward and the reverse back, never "
         "crosses fields, and public results leave through the preprocessor's inverse; PCA/whitener score maps are identities; every "
-        "'normalized' switch divides in score-producing directions and multiplies in the others by the per-mode norms of the same field. Whitener un-whitening uses Tinv with the conjugation of T (PCA: V and V^H); every 'normalized' switch is either applied to a per-mode norm or handed on.",
+        "'normalized' switch divides in score-producing directions and multiplies in the others by the per-mode norms of the same field. Whitener un-whitening uses Tinv with the conjugation of T (PCA: V and V^H); every 'normalized' switch is either applied to a per-mode norm or handed on. No accessor rescales stored arrays in place; in functions serving both fields the switch acts on both; arrays computed from a coordinate carry their own name (so that the serialiser does not store them as that coordinate).",
         "note": "Necessary structural clauses only. Not decided: the numerical round-trip identity, SparsePCA/POP approximations.",
         "technique": "affine-map extraction by provenance + guard analysis, stage-chain order typing over def-use paths, field-index typing",
     },
@@ -40,7 +40,7 @@ CLAIMS = {
         "whitener pattern map are patterns and may not serve as projection weights, and the number of forward stages on the data matches the basis of "
         "the components; the cross rotator stores its vectors in whitened PC space; every per-mode factor the rotators' fit applies to the model's "
         "score chain and stores (singular values, norms, sign) is applied by transform with the same operator, per field; no list accumulator "
-        "initialised before a loop is rebound inside it (positive fixture fires each run). Rotator transform re-sorts its projections exactly as _sort_by_variance re-sorts the stored entries.",
+        "initialised before a loop is rebound inside it (positive fixture fires each run). Rotator transform re-sorts its projections exactly as _sort_by_variance re-sorts the stored entries. What reaches the projection / prediction algorithm has passed every forward stage of its field; rotated vectors are lowered through both pattern inverses before the rotation; fit and transform agree on the per-mode factors in both directions; every result is re-sorted; no accessor rescales stored arrays in place.",
         "note": "Necessary structural clauses only. Not decided: numerical equality, tolerance, sign identity as values. Field-index and stage-order "
         "clauses of transform are decided under C03/C09; the rotation-matrix pairing under C11; label paths under C05.",
         "technique": "pattern/weight and basis typing of dot-product operands from stage provenance, fit-vs-transform factor agreement by source signatures, AST lint with fixture",
@@ -68,7 +68,7 @@ CLAIMS = {
         "text": "Every module, function and call site of xeofs is enumerated: no dimension is addressed through the "
         "literals 'sample'/'feature' (constants, keywords, attribute access), no callee with a literal dimension "
         "default is called without the configured names, and Stacker canonicalises to (sample_name, feature_name). "
-        "This is the necessary structural clause of naming-independence; exhaustive over the finite site space. List items are aligned by sample label whatever order each stores its samples in; Stacker inverses change labels only by rename / unstack.",
+        "This is the necessary structural clause of naming-independence; exhaustive over the finite site space. List items are aligned by sample label whatever order each stores its samples in; Stacker inverses change labels only by rename / unstack. Rotated loadings return to model space pca -> whitener (label-based products pair labels of the same space).",
         "note": "Decides the NAMES clauses only. Not decided: numerical invariance under permutations/partitions, sign "
         "determinism as values. Trusted: ast, the class/constructor-flow resolver, the one table exemption (Scaler.dims keys).",
         "technique": "AST lint over resolved program (literal dimension designators, call-site default binding, constructor-parameter flow)",
@@ -78,7 +78,7 @@ CLAIMS = {
         "same meaning (element [i] for field i of cross-set models) and, inside the Preprocessor, the Scaler/Sanitizer keyword; in Scaler.fit/transform/"
         "inverse each flag guards exactly its own fitted factor and every factor acts once; user weights reach Scaler.weights_ unchanged through "
         "entry point -> Preprocessor -> iter_kwargs['weights'] -> per-item fit(**{k: v[i]}) for the right field and no other stage; mean_/std_ are "
-        "reductions over the sample dimensions; latitude weights are sqrt(cos(deg2rad(lat)).clip(0,1)) of a feature dimension.",
+        "reductions over the sample dimensions; latitude weights are sqrt(cos(deg2rad(lat)).clip(0,1)) of a feature dimension. The user's weights reach the scaler with their own labels (no re-labelling, re-indexing or raw-value access on the way).",
         "note": "Necessary structural clauses only. Not decided: the invariances themselves, the 1.2e-7 clipping floor, latitude-name detection beyond the lookup.",
         "technique": "interprocedural constructor-parameter flow, guard-to-operation pairing, def-use provenance through dict/loop forwarding",
     },
@@ -88,7 +88,7 @@ CLAIMS = {
         "the complex-capable kernels (cpcca, whitener, statistics, fractional power, rotation) is a conjugate transpose; reconstruction "
         "operands are conjugated, projection operands not, score norms have exactly one conjugated factor; the sample-count comparison "
         "raises before the cross product; stage calls, dot products, norm factors and correlation calls never mix field indices "
-        "(heterogeneous patterns cross, homogeneous do not). In the shared fit each field passes preprocessing -> PCA -> augmentation -> whitening -> algorithm in that order, the whitener being fitted on the output of the augmentation.",
+        "(heterogeneous patterns cross, homogeneous do not). In the shared fit each field passes preprocessing -> PCA -> augmentation -> whitening -> algorithm in that order, the whitener being fitted on the output of the augmentation. No accessor rescales the stored scores / singular vectors in place.",
         "note": "Necessary structural clauses only. Not decided: diagonal cross-covariance, proportionality factors, SCF sums, canonical "
         "correlations as numbers, bounds in [-1,1] as values. Trusted: numpy std default ddof=0.",
         "technique": "denominator/ddof classification, Hermitian-transpose lint over matmul chains, conjugation parity, guard dominance, field-index abstract typing",
@@ -120,7 +120,7 @@ CLAIMS = {
         "containers and attributes of helper objects carry taint; metadata accessors cleanse): every certainly-materialising operation "
         "(.values, .item(), compute/load, float/int/bool, truth value of an array, np.asarray, equals/identical, dropna, where(drop=True), "
         "np.linalg.eig, assignment into numpy buffers) on lazy data must be control-dependent on a compute/check_nans flag somewhere on the call "
-        "path or lie after an 'if use_dask: raise'; input data entries are stored with allow_compute=False and both compute() methods filter on it. Inner models / solvers take their compute and check_nans flags from the outer model; in every branch chain that tests for dask-backed data, what one branch assigns and is used afterwards every falling-through branch assigns (no post-processing for one kind of array only).",
+        "path or lie after an 'if use_dask: raise'; input data entries are stored with allow_compute=False and both compute() methods filter on it. Inner models / solvers take their compute and check_nans flags from the outer model; in every branch chain that tests for dask-backed data, what one branch assigns and is used afterwards every falling-through branch assigns (no post-processing for one kind of array only). No container is built from the entries of another one (the constructor resets allow_compute).",
         "note": "Necessary structural clauses only. Not decided: equality with the in-memory fit, scheduler independence, what dask's own routines "
         "do. multi.CCA scoped out (refuses dask input). Known findings: OPA (.dropna) and POP (eig, buffer loop) - see known_findings.json. "
         "Trusted: frozen table of materialising operations and of metadata accessors.",
@@ -131,7 +131,7 @@ CLAIMS = {
         "literal, update, item assignment, pop) is closed under cls(**params); sklearn-style transformers store every constructor "
         "parameter under its name; every attribute assigned outside __init__ and read on a post-fit path is serialised; every marker "
         "literal a deserialiser reads is written by a serialiser; the netCDF attribute codec has no unguarded constant subscript on a "
-        "possibly empty string and no unhandled literal_eval (positive fixture fires on every run). Deserialised container attributes are distinct objects; the netCDF attribute codec is applied to node-level and variable-level attributes in both directions, written back under the key read.",
+        "possibly empty string and no unhandled literal_eval (positive fixture fires on every run). Deserialised container attributes are distinct objects; the netCDF attribute codec is applied to node-level and variable-level attributes in both directions, written back under the key read. Arrays computed from a coordinate are named; recorded MultiIndex levels are the index's own; deserialisation entry points run no finalising hook.",
         "note": "Necessary structural clauses only. Not decided: value identity of results after a round trip; the real netCDF/zarr "
         "engines. Known finding: GWPCA constructor closure (see known_findings.json).",
         "technique": "key-set abstract interpretation of constructor chains, writer/reader literal agreement, guard (try/except, emptiness) analysis",
@@ -142,7 +142,7 @@ CLAIMS = {
         "compute of every concrete model and persistent transformer shows no attribute that fit rewrites being read before it is rebuilt; "
         "transform-written attributes are not read by fitted-data accessors; arrays read from another model's container or the caller's inputs never "
         "reach DataContainer.add or an in-place assignment without an intervening fresh object; borrowed stage objects are never re-fitted; mutable "
-        "defaults are never mutated. No two attributes of an object are bound to one mutable container (any method, directly or through a local); query methods do not modify stored results in place.",
+        "defaults are never mutated. No two attributes of an object are bound to one mutable container (any method, directly or through a local); query methods do not modify stored results in place. No memo (cached_property / lru_cache) of a value derived from fitted state survives a refit.",
         "note": "Necessary structural clauses only. Not decided: bit-identical equality with a fresh model. Trusted: which operations return fresh "
         "objects (any xarray/numpy method call or arithmetic), DataContainer.add/set_attrs mutate what they are given.",
         "technique": "typestate/history analysis: must-def / exposed-read dataflow across calls, ownership (borrowed vs fresh) provenance, dominators",
@@ -153,7 +153,7 @@ CLAIMS = {
         "draw exists and generator constructors are seeded; every callee taking random_state receives it wherever a seed is in scope "
         "(unless pinned to the exact solver); each match on the solver has exactly the documented cases plus a raising default; the "
         "sign multiplier is computed from VT along the feature axis and multiplies U and V; the two wrappers agree on solver keyword "
-        "sets, on the svds re-sort and on the canonical threshold count n_pre - #(cum >= f) + 1 with N-1/ddof=1. Only the number of modes, the seed (and svds' solver) are imposed over the user's solver_kwargs, everything else the wrappers set is a default the user's dict overrides; the exact solver runs exactly when the solver policy flag says so.",
+        "sets, on the svds re-sort and on the canonical threshold count n_pre - #(cum >= f) + 1 with N-1/ddof=1. Only the number of modes, the seed (and svds' solver) are imposed over the user's solver_kwargs, everything else the wrappers set is a default the user's dict overrides; the exact solver runs exactly when the solver policy flag says so. No generator object created in a constructor is kept on the model or handed to the helper objects it builds.",
         "note": "Necessary structural clauses only. Not decided: minimality of the threshold count as arithmetic on values, agreement of "
         "exact and randomised results, bit-identity as values. Trusted: table of solver seed keywords (sklearn/scipy/dask APIs).",
         "technique": "def-use provenance through dict merges and tuple unpacking, call-site parameter binding, match exhaustiveness, sibling cross-check of extracted facts",
@@ -163,7 +163,7 @@ CLAIMS = {
         "the single dot product of each map: the pattern map is the adjoint of the data map in both directions, forward/inverse use the "
         "inverse pair (T/Tinv; V/V^H), forward maps contract the feature dimension and inverse maps the mode dimension; Tinv is computed "
         "from T (inv and pinv fallback) and stored in the returned order; the exponent evaluates to (alpha-1)/2; the Gram matrix is X^H X and "
-        "the fractional power is rebuilt as V diag(s**p) V^H; the dimension check dominates every product in fit and transform. The kernel's outputs are labelled T: (feature, mode), Tinv: (mode, feature); both operands of every stage product carry the contraction dimension (renamed to it where it is a helper name).",
+        "the fractional power is rebuilt as V diag(s**p) V^H; the dimension check dominates every product in fit and transform. The kernel's outputs are labelled T: (feature, mode), Tinv: (mode, feature); both operands of every stage product carry the contraction dimension (renamed to it where it is a helper name). No memoised derived matrix survives a refit.",
         "note": "Necessary structural clauses only. Not decided: cov(whitened) = C**alpha numerically, Hermitian-ness, orthonormality, "
         "conditioning. Identity branches are checked under C10.",
         "technique": "adjoint typing of linear maps from provenance (matrix attribute, conjugation parity, transposition), small arithmetic evaluation of the exponent, dominators",
